@@ -801,165 +801,8 @@ func runC07(w *World, r *Report) {
 	if f == nil {
 		return
 	}
-	fn := f.fn
 	li := ComputeLocks(w, acctScope)
-	walks := f.calls(cn("accountant", "*AccountingBook", "performOnAncestorWalker"))
-	r.rule("same-cut", "the funds/save walk and the deletion walk start at the identical cut vertex, which is the hash collected by the depth walk", 2)
-	if len(walks) != 3 {
-		r.bad("same-cut", "truncate/walks", w.Pos(fn.Pos()), "three ancestor walks (find cut, accumulate+save, collect for deletion)", fmt.Sprintf("%d", len(walks)))
-		return
-	}
-	_, a0 := callArgs(walks[0])
-	_, a1 := callArgs(walks[1])
-	_, a2 := callArgs(walks[2])
-	cut := pathOf(a1[1])
-	r.check(cut == pathOf(a2[1]), "same-cut", "truncate/walk-roots", lineOf(w, walks[2]), "save walk and delete walk have the same root", fmt.Sprintf("%s vs %s", cut, pathOf(a2[1])))
-	// cut originates from h.getHash() where h.next is the callback of the first walk
-	okCut := false
-	if al, ok := strip(a1[1]).(ssa.Value); ok {
-		_ = al
-	}
-	for _, c := range f.calls(cn("accountant", "*hashAtDepth", "getHash")) {
-		recv, _ := callArgs(c)
-		// first walk's perform is a bound method of the same collector
-		if mc, ok := a0[2].(*ssa.MakeClosure); ok && len(mc.Bindings) == 1 && sameVal(mc.Bindings[0], recv) {
-			if bf, ok := mc.Fn.(*ssa.Function); ok && strings.Contains(bf.Name(), "next") {
-				// the call's value is what is stored into the cut variable
-				for _, ref := range *callValue(c).Referrers() {
-					if st, ok := ref.(*ssa.Store); ok && pathOf(st.Addr) == cut {
-						okCut = true
-					}
-				}
-			}
-		}
-	}
-	r.check(okCut, "same-cut", "truncate/cut-from-depth-walk", lineOf(w, walks[0]), "the cut is the hash collected by the first walk's depth counter", "cut variable has another origin")
-
-	r.rule("delete-after-save", "DeleteVertex is reachable only after the save walk succeeded (nil or the tolerated ErrBreak) and the checkpoint write succeeded", 3)
-	dels := f.calls(nDeleteVertex)
-	if len(dels) == 0 {
-		r.bad("delete-after-save", "truncate/DeleteVertex", w.Pos(fn.Pos()), "deletion anchor", "not found")
-	}
-	tolerated := func(c ssa.CallInstruction) []Edge { // errors.Is(err, ErrBreak) == true for this call's error
-		var es []Edge
-		ev := errResult(c)
-		for _, ic := range f.calls("errors.Is") {
-			a := ic.Common().Args
-			if sameVal(a[0], ev) && describeErrVal(a[1]) == "ErrBreak" {
-				es = append(es, passBool(ic, 0, true)...)
-			}
-		}
-		return es
-	}
-	for _, d := range dels {
-		for i, wc := range walks[1:] {
-			okW := true
-			for _, fe := range failErrNonNil(wc) {
-				if !mustCrossFrom(fe, d.Block(), tolerated(wc)) {
-					okW = false
-				}
-			}
-			okW = okW && len(failErrNonNil(wc)) > 0
-			r.check(okW, "delete-after-save", fmt.Sprintf("truncate/after-walk#%d", i+2), lineOf(w, wc), "a failed walk (other than the tolerated ErrBreak) never leads to the deletion", "deletion reachable from the walk's failure edge")
-		}
-		var saveE []Edge
-		for _, c := range f.calls(cn("accountant", "*fundsMemMap", "saveToStorage")) {
-			saveE = append(saveE, passErrNil(c)...)
-		}
-		r.check(behind(d, saveE), "delete-after-save", "truncate/after-checkpoint-write", lineOf(w, d), "vertices are deleted only after the funds checkpoint was written", "deletion not dominated by saveToStorage == nil")
-		// deletion happens after the save walk (order)
-		r.check(walks[1].Block().Dominates(d.Block()) && walks[2].Block().Dominates(d.Block()), "delete-after-save", "truncate/order", lineOf(w, d), "deletion is dominated by both walks", "order violated")
-	}
-
-	r.rule("save-what-is-counted", "the callback of the funds walk saves every vertex whose funds it accumulates (same closure, same vertex), and saves to storage what the deletion walk collects", 2)
-	if cl := closureOf(a1[2]); cl != nil {
-		v := cl.Params[0].Name()
-		var nvE, svE []Edge
-		for _, c := range callsTo(cl, cn("accountant", "*fundsMemMap", "nextVertex")) {
-			_, a := callArgs(c)
-			if pathOf(a[0]) == v {
-				nvE = append(nvE, passErrNil(c)...)
-			}
-		}
-		for _, c := range callsTo(cl, cn("accountant", "*AccountingBook", "saveVertexToStorage")) {
-			_, a := callArgs(c)
-			if pathOf(a[0]) == v {
-				svE = append(svE, passErrNil(c)...)
-			}
-		}
-		ok := len(nvE) > 0
-		var saveCalls []ssa.CallInstruction
-		for _, c := range callsTo(cl, cn("accountant", "*AccountingBook", "saveVertexToStorage")) {
-			_, a := callArgs(c)
-			if pathOf(a[0]) == v {
-				saveCalls = append(saveCalls, c)
-			}
-		}
-		if len(saveCalls) == 0 {
-			ok = false
-		}
-		for _, ret := range returnsOf(cl) {
-			if !successReturn(ret) {
-				continue
-			}
-			// success either behind save == nil, or the return propagates the save's own result
-			propagates := false
-			vals, _ := resultVals(ret, 0)
-			for _, sc := range saveCalls {
-				if len(vals) == 1 && sameVal(vals[0], callValue(sc)) {
-					propagates = true
-				}
-			}
-			if !behind(ret, nvE) || !(behind(ret, svE) || propagates) {
-				ok = false
-			}
-		}
-		r.check(ok, "save-what-is-counted", "truncate/perform", w.Pos(cl.Pos()), "the walk callback succeeds only after nextVertex(v) and saveVertexToStorage(v) both succeeded", fmt.Sprintf("nextVertex-edges=%d save-edges=%d", len(nvE), len(svE)))
-	} else {
-		r.bad("save-what-is-counted", "truncate/perform", lineOf(w, walks[1]), "the funds walk callback must be a function literal", "not a literal")
-	}
-	if cl := closureOf(a2[2]); cl != nil {
-		v := cl.Params[0].Name()
-		ok := false
-		for _, c := range callsBySuffix(cl, ").add") {
-			_, a := callArgs(c)
-			if x, isV := vertexOfHashArg(a[0]); isV && pathOf(x) == v {
-				ok = true
-			}
-		}
-		// the deleted ids are the collected ones
-		for _, d := range dels {
-			_, da := callArgs(d)
-			fromBuf := false
-			for _, o := range origins(da[0]) {
-				if ex, isEx := o.(*ssa.Extract); isEx {
-					if c, isCall := ex.Tuple.(*ssa.Call); isCall && strings.HasSuffix(calleeName(c), ").next") {
-						fromBuf = true
-					}
-				}
-			}
-			ok = ok && fromBuf
-		}
-		r.check(ok, "save-what-is-counted", "truncate/delete-set", w.Pos(cl.Pos()), "the ids deleted are exactly the hashes collected by the third walk", "collector or deletion loop not bound")
-	}
-
-	r.rule("under-ledger-lock", "the whole truncation runs with AccountingBook.mux held exclusively; the previous checkpoint is loaded before the funds walk", 5)
-	n := 0
-	for _, c := range append(append(append([]ssa.CallInstruction{}, walks...), dels...), f.calls(cn("accountant", "*fundsMemMap", "saveToStorage"), cn("accountant", "*AccountingBook", "forEachfundFromStorage"), dagM("GetLeaves"))...) {
-		held := li.At(c)
-		n++
-		r.check(held.Has(abMux, "W"), "under-ledger-lock", "truncate/"+shortCallee(c), lineOf(w, c), "step runs under the exclusive ledger lock", "lockset "+held.String())
-	}
-	okPrev := false
-	for _, c := range f.calls(cn("accountant", "*AccountingBook", "forEachfundFromStorage")) {
-		_, a := callArgs(c)
-		if mc, ok := a[0].(*ssa.MakeClosure); ok {
-			if bf, ok := mc.Fn.(*ssa.Function); ok && strings.Contains(bf.Name(), "set") && c.Block().Dominates(walks[1].Block()) && behind(walks[1], passErrNil(c)) {
-				okPrev = true
-			}
-		}
-	}
-	r.check(okPrev, "under-ledger-lock", "truncate/previous-checkpoint-first", w.Pos(fn.Pos()), "the stored checkpoint seeds the funds map before vertices are accumulated", "forEachfundFromStorage(fm.set) does not dominate the funds walk")
+	truncateObligations(w, r, li)
 
 	// the other side of the exclusion: whoever reads the checkpointed funds holds the ledger lock, so that
 	// the checkpoint it sees and the DAG it walks belong to the same side of a truncation
